@@ -32,6 +32,7 @@ var (
 	reRRestore  = regexp.MustCompile(`restoreNode/(\w+)#`)
 	reRWalk     = regexp.MustCompile(`Walk/(\w+)#`)
 	reRAccessor = regexp.MustCompile(`^(?:decorations|Decorations)/(\w+)#`)
+	reRHelpers  = regexp.MustCompile(`\(\*decorator\.FileRestorer\)\.(applyDecorations|applySpace|addCommentField|applyLiteral)#`)
 	reRDecList  = regexp.MustCompile(`\(\*dst\.Decorations\)\.(\w+)#`)
 )
 
@@ -47,6 +48,9 @@ func replayFor(obligation string) *replaySpec {
 	}
 	if m := reRAccessor.FindStringSubmatch(obligation); m != nil {
 		return &replaySpec{"accessor", m[1], "dstutil", "dstutil_test.go.part"}
+	}
+	if m := reRHelpers.FindStringSubmatch(obligation); m != nil {
+		return &replaySpec{"helpers", m[1], "decorator", "decorator_test.go.part"}
 	}
 	if m := reRDecList.FindStringSubmatch(obligation); m != nil {
 		return &replaySpec{"declist", m[1], ".", "dst_test.go.part"}
